@@ -28,6 +28,16 @@ def __parse_date(_date: str) -> Optional[datetime]:
     return datetime.strptime(_date, __DATE_FORMAT)
 
 
+def __parse_min_start(_val: str) -> Optional[datetime]:
+    if len(_val) == 0:
+        return None
+    try:
+        return datetime.strptime(_val, __DATE_FORMAT)
+    except ValueError:
+        # files written by earlier versions contain str(datetime)
+        return datetime.fromisoformat(_val)
+
+
 def __parse_predecessors(_val: str) -> List[int]:
     if len(_val) == 0:
         return []
@@ -65,7 +75,9 @@ def read_csv(path: str, encoding='utf-8', delimiter=';') -> WBS:
         for row in csvfile:
             kwargs = {}
             for k, v in header.items():
-                if k not in __DEFAULT_FIELDS:
+                if k == 'min_start':
+                    kwargs[k] = __parse_min_start(row[v])
+                elif k not in __DEFAULT_FIELDS:
                     kwargs[k] = row[v]
 
             raws.append(
@@ -113,5 +125,12 @@ def write_csv(wbs: WBS, path: str, encoding='utf-8', delimiter=';'):
                 task.parent_id,
                 ';'.join([str(pid) for pid in task.predecessor_ids])
             ] + [
-                task.__getattribute__(k) if k in task.__dict__ and not k.startswith('_') else '' for k in field_list
+                __format_custom(k, task.__getattribute__(k)) if k in task.__dict__ and not k.startswith('_') else ''
+                for k in field_list
             ])
+
+
+def __format_custom(name: str, value):
+    if name == 'min_start' and isinstance(value, datetime):
+        return value.strftime(__DATE_FORMAT)
+    return value
